@@ -16,6 +16,15 @@ type KnownFinding struct {
 	What       string `json:"what"`
 	Status     string `json:"status,omitempty"` // "open" (default) or "fixed"
 	Commit     string `json:"commit,omitempty"`
+	Text       string `json:"text,omitempty"`
+	// WitnessPkg/WitnessTest: a Go test body (package-internal) replayed on the
+	// real code through -overlay; it prints WITNESS-CONFIRMED while the defect exists.
+	WitnessPkg     string   `json:"witness_pkg,omitempty"`
+	WitnessImports []string `json:"witness_imports,omitempty"`
+	WitnessTest    string   `json:"witness_test,omitempty"`
+	checked        bool
+	confirmed      bool
+	output         string
 }
 
 type KnownFindings struct {
@@ -38,17 +47,44 @@ func loadKnownFindings(verif string) *KnownFindings {
 // property and obligation name and is still open. (Region-restricted
 // re-proving is done by the engine through `except` obligations, see
 // DESIGN.md section 6.5.)
-func (kf *KnownFindings) match(prop string, o *Obligation) *KnownFinding {
+func (kf *KnownFindings) match(p *Prog, repo, prop string, o *Obligation) *KnownFinding {
 	for i := range kf.Findings {
 		f := &kf.Findings[i]
 		if f.Status == "fixed" {
 			continue
 		}
 		if f.Property == prop && f.Obligation == o.Name {
-			return f
+			if f.WitnessTest == "" {
+				return f
+			}
+			if !f.checked {
+				f.checked = true
+				f.confirmed, f.output = runWitness(p, repo, f)
+			}
+			if f.confirmed {
+				return f
+			}
+			return nil // the recorded witness no longer reproduces: this is a different failure
 		}
 	}
 	return nil
+}
+
+func runWitness(p *Prog, repo string, f *KnownFinding) (bool, string) {
+	var b strings.Builder
+	pkgName := f.WitnessPkg[strings.LastIndex(f.WitnessPkg, "/")+1:]
+	for _, pk := range p.Pkgs {
+		if pk.PkgPath == f.WitnessPkg {
+			pkgName = pk.Types.Name()
+		}
+	}
+	fmt.Fprintf(&b, "package %s\n\nimport (\n\t\"fmt\"\n\t\"testing\"\n", pkgName)
+	for _, im := range f.WitnessImports {
+		fmt.Fprintf(&b, "\t%q\n", im)
+	}
+	fmt.Fprintf(&b, ")\n\nvar _ = fmt.Sprint\n\nfunc TestGovcReplay(t *testing.T) {\n\tdefer func() {\n\t\tif r := recover(); r != nil {\n\t\t\tfmt.Printf(\"WITNESS-PANIC %%v\\n\", r)\n\t\t}\n\t}()\n%s\n}\n", f.WitnessTest)
+	out, _ := runOverlayTest(p, repo, f.WitnessPkg, b.String())
+	return strings.Contains(out, "WITNESS-CONFIRMED"), out
 }
 
 type ReplayInfo struct {
